@@ -56,18 +56,41 @@ def ref_of(tgt):
 
 # ---------------------------------------------------------------- building
 
+def make_data(flat, n, nc, form, numpy):
+    """the same values in the Python forms a caller may hand to FloatSource: flat (documented),
+    already shaped (right or other row width), float64, non-contiguous slices of a bigger table"""
+    a = numpy.array(flat, dtype=numpy.float32)
+    if form == 'rows':
+        return a.reshape(-1, nc)
+    if form.startswith('wide'):
+        return a.reshape(-1, int(form[4:]))
+    if form == 'f64':
+        return a.astype(numpy.float64)
+    if form == 'strided':
+        big = numpy.zeros(2 * len(flat), dtype=numpy.float32)
+        big[::2] = a
+        return big[::2]
+    if form == 'strided2d':
+        big = numpy.zeros((n, 2 * nc), dtype=numpy.float32)
+        big[:, :nc] = a.reshape(-1, nc)
+        return big[:, :nc]
+    return a
+
+
 def build_create(case):
     """-> (callable constructing the primitive, doc)"""
     import numpy
     import collada
     from collada import source
     doc = collada.Collada()
-    srcs = [source.FloatSource('s%d' % i, numpy.array(src_data(i, n, nc), dtype=numpy.float32), COMPS[nc])
+    df = case.get('dforms') or {}
+    srcs = [source.FloatSource('s%d' % i, make_data(src_data(i, n, nc), n, nc, df.get(str(i), 'flat'), numpy), COMPS[nc])
             for i, (n, nc) in enumerate(case['srcs'])]
     geom = collada.geometry.Geometry(doc, 'g0', 'g0', srcs)
     il = source.InputList()
-    for off, sem, tgt in case['inputs']:
-        il.addInput(off, sem, ref_of(tgt))
+    sets = case.get('sets') or [None] * len(case['inputs'])
+    for (off, sem, tgt), st in zip(case['inputs'], sets):
+        il.addInput(off, sem, ref_of(tgt), st)
     mat = None if case.get('material') is None else 'mat%d' % case['material']
     kind = case['kind']
     main = _maker(case, case, geom, il, mat, numpy)
@@ -94,7 +117,9 @@ def _maker(case0, case, geom, il, mat, numpy):
     if kind == 'line':
         return lambda: geom.createLineSet(numpy.array(case['flat'], dtype=dt), il, mat)
     if kind == 'polylist':
-        vc = list(case['vcounts']) if case.get('vcform') == 'list' else numpy.array(case['vcounts'], dtype=numpy.int32)
+        vf = case.get('vcform', 'array')
+        vc = list(case['vcounts']) if vf == 'list' else \
+            numpy.array(case['vcounts'], dtype=numpy.int32 if vf == 'array' else getattr(numpy, vf))
         return lambda: geom.createPolylist(numpy.array(case['flat'], dtype=dt), vc, il, mat)
     return lambda: geom.createPolygons([numpy.array(p, dtype=dt) for p in case['polys']], il, mat)
 
@@ -148,10 +173,11 @@ def xml_doc(case):
         tagname = {'tri': 'triangles', 'line': 'lines', 'polylist': 'polylist', 'polygons': 'polygons'}[case['kind']]
         mat = '' if case.get('material') is None else ' material="mat%d"' % case['material']
         parts.append('<%s count="0"%s>' % (tagname, mat))
-        nset = 0
-        for off, sem, tgt in case['inputs']:
-            parts.append('<input offset="%d" semantic="%s" source="%s" set="%d"/>' % (off, sem, ref_of(tgt), nset))
-            nset += 1
+        sets = case.get('sets')
+        for k, (off, sem, tgt) in enumerate(case['inputs']):
+            st = k if sets is None else sets[k]
+            parts.append('<input offset="%d" semantic="%s" source="%s"%s/>'
+                         % (off, sem, ref_of(tgt), '' if st is None else ' set="%s"' % st))
         if case['kind'] == 'polylist':
             parts.append('<vcount>%s</vcount>' % ' '.join(str(x) for x in case['vcounts']))
         if case['kind'] == 'polygons':
